@@ -1,11 +1,53 @@
 """C17 — the file-system backend never leaves its root nor crosses bucket boundaries.
-Only the PATH COMPUTATION is within reach of this technique (Kani/CBMC harnesses on FileSystem::resolve_abs_path /
-get_object_path / get_bucket_path / get_metadata_path / get_internal_info_path / resolve_upload_part_path with
-path-absolutize compiled, kani/specs/C17.json).  That every tokio::fs call touches only the computed path, and the behaviour on a
-real directory tree (copy/list/delete, symlinks), is file-system I/O: not applicable to a solver over the code (see DESIGN.md 7)."""
-from vlib import kspec
+Deciding part: Kani/CBMC harnesses on the PATH COMPUTATION (FileSystem::resolve_abs_path / get_object_path / get_bucket_path /
+get_metadata_path / get_internal_info_path / resolve_upload_part_path with path-absolutize compiled, kani/specs/C17.json).
+Closing the gap to the operations: a path-provenance pass over s3.rs / fs.rs (C17flow.py: every file-system call takes its
+path from those constructors; solver-free, labelled) whose deviations count only when the native probe reproduces them, and
+the probe itself (replay/src/fsprobe.rs: the real backend through the S3 trait, traversal-rich keys, whole-tree snapshots)
+as validation.  Behaviour of the I/O itself on a real tree (symlinks, races) is not reachable by a solver (DESIGN.md 7)."""
+import os
+import subprocess
+import sys
+import time
+import json
+
+sys.path.insert(0, os.path.dirname(os.path.abspath(__file__)))
+from vlib import kspec, replay, BUILD, Inconclusive  # noqa: E402
+import C17flow  # noqa: E402
 
 LEVEL = "model_checking"
+
+
+def fs_probe():
+    b = replay.binary()
+    work = os.path.join(BUILD, "fsprobe-%d" % os.getpid())
+    p = subprocess.run([b, "fsprobe", work], stdout=subprocess.PIPE, stderr=subprocess.PIPE, text=True, timeout=300)
+    if p.returncode != 0:
+        raise Inconclusive("fs probe failed: " + p.stderr[-500:])
+    return json.loads(p.stdout)
+
+
+def probe_obligation(rep):
+    t0 = time.time()
+    try:
+        out = fs_probe()
+    except Inconclusive as e:
+        rep.fail_inconclusive(str(e))
+        return None
+    rep.traces_validated += out["runs"]
+    if out["runs"] < 100:
+        rep.fail_inconclusive("fs probe ran only %d operations" % out["runs"])
+        return out
+    if out["violations"]:
+        v = out["violations"][0]
+        res = rep.violation("fs-probe:%s" % v["op"], "operation %s on bucket b1 with key %r %s (%d deviations in %d runs)" % (
+            v["op"], v["key"], v["what"], len(out["violations"]), out["runs"]), rep.save_cex("fsprobe", out["violations"][:40]), confirmed=True)
+        rep.obligation("fs probe", "replayer(real backend on a scratch tree)", res, time.time() - t0)
+    else:
+        rep.obligation("fs probe: %d operations (%d kinds x %d traversal-rich keys) addressed to one bucket of a 3-bucket store with a sentinel tree outside "
+                       "the root: nothing outside that bucket and its own bookkeeping files is created, changed, removed or returned" % (
+                           out["runs"], out["ops"], out["keys"]), "replayer(real backend; not solver-decided)", "holds", time.time() - t0, queries=out["runs"])
+    return out
 
 
 def run(rep, tier):
@@ -13,5 +55,7 @@ def run(rep, tier):
     res = kspec.run_spec(rep, "C17", tier, budget_s=400)
     if not res:
         rep.fail_inconclusive("no C17 harness available")
-    rep.out("the I/O half of the property (which paths the tokio::fs calls actually touch; behaviour on a real tree; symlinks); "
+    out = probe_obligation(rep)
+    C17flow.check(rep, natively_confirmed=bool(out and out["violations"]))
+    rep.out("the I/O itself (what the kernel does with the computed path: symlinks, races, case-insensitive file systems); "
             "keys longer than the harness bounds; percent-encoded spellings reduce to these keys through C12 (decoded once before the backend)")
